@@ -274,6 +274,45 @@ def xff30_decode(h):
     h.cover("xFF30 decode returns a message")
 
 
+def version_decode_any_length(h, mod, mk_subheader, sub_id):
+    """Unbounded companion of decode-vendor-reading for the console-version decoder (same code shape in both
+    generations): any payload length, any text length.  The list of versions is `text.split(",")` of exactly the
+    announced text - kept abstract (pyvc SplitList: the pieces of that very view at that separator)."""
+    from pyvc.pybuiltins import SplitList
+    buf, mlen = _payload(h, min_len=2)
+    r = h.method(h.new(mod + ":ConsoleVersionDecoder"), "decode", buf, mk_subheader(h, sub_id, mlen))
+    h.oblige("returns or rejects", only_rejects(h, r))
+    n = _byte_at(h, buf, 1)
+    if not r.ok:
+        h.oblige("with two or more bytes of data only invalid UTF-8 or an announced length beyond the data is rejected",
+                 Or(r.raised("UnicodeDecodeError"), And(r.raised("DecodeError"), 2 + n > mlen)))
+        return
+    m = h.attr(r.value, "message")
+    ok = h.isinstance(m, mod + ":ConsoleVersionMessage")
+    h.oblige("two or more bytes of data decode to a version message", ok)
+    if not ok:
+        return
+    h.oblige("update available <=> Byte3 (update sign) != 0", h.eq(h.attr(m, "update_available"), _byte_at(h, buf, 0) != 0))
+    h.oblige("an announced text longer than the data is rejected, never truncated", 2 + n <= mlen)
+    vs = h.attr(m, "versions")
+    if h.branch(n == 0):
+        h.oblige("no text: the single empty version (what ''.split(',') is)", h.eq(vs, [""]) if not isinstance(vs, SplitList) else h.length(vs.view) == 0)
+    else:
+        h.oblige("versions = the announced text - exactly the Byte4 bytes after the length byte - split at ','",
+                 isinstance(vs, SplitList) and vs.sep == "," and vs.maxsplit == -1 and bool(h.it.path.branch(_is_view(h, vs.view, buf, 2, n)) is True))
+    h.oblige("remaining = what follows the announced text", _is_view(h, h.attr(r.value, "remaining"), buf, 2 + n, mlen - 2 - n))
+    h.cover("version message decoded")
+
+
+@oset("at5.xFF30.decode-any-length", ["C05", "C17"], [XVER + ":ConsoleVersionDecoder.decode"],
+      assumptions=["len(payload) == sub-header.message_length (what the receive path hands to a sub-decoder)",
+                   "str.split is kept abstract: the obligation is that it is applied to exactly the announced text with ','"])
+def xff30_decode_any(h):
+    if not h.symbolic:
+        return
+    version_decode_any_length(h, XVER, at5_ext_subheader, ID_VERSION)
+
+
 # ================================ 0xFF11 AC ability ==============================================
 
 ABILITY_MODES = ["AUTO", "HEAT", "DRY", "FAN", "COOL"]
